@@ -566,8 +566,8 @@ func (r *runner) c27(c *vcase, raw json.RawMessage, rd *ws.Rendered, targets []s
 			}
 			sfd := protoFromFile(f)
 			efd := ex.Files[p]
-			path, d := protoDiff(stripSourceInfo(sfd), stripSourceInfo(efd))
-			if path == "" {
+			diffs := protoDiffAll(stripSourceInfo(sfd), stripSourceInfo(efd))
+			if len(diffs) == 0 {
 				continue
 			}
 			// arbitration by the specification (valid cases): which side deviates from Descriptor(file)?
@@ -587,7 +587,14 @@ func (r *runner) c27(c *vcase, raw json.RawMessage, rd *ws.Rendered, targets []s
 					who = "outside-spec-projection"
 				}
 			}
-			r.report("c27:desc:"+path+":"+who, raw, c, rd, detail+" | "+d)
+			// one report per distinct differing member (path) of the file
+			seen := map[string]bool{}
+			for _, df := range diffs {
+				if !seen[df.path] {
+					seen[df.path] = true
+					r.report("c27:desc:"+df.path+":"+who, raw, c, rd, detail+" | "+df.detail)
+				}
+			}
 			return
 		}
 	default:
